@@ -10,7 +10,9 @@
 //! `run` prints `B <unit>` before and `R <json>` after every unit so that a worker
 //! that dies (stack overflow, abort) names the unit that killed it.
 
+mod atoms;
 mod checks;
+mod corpus;
 #[cfg(feature = "native")]
 mod isolate;
 mod runner;
@@ -95,6 +97,8 @@ fn main() {
                 i += stride;
             }
         }
+        "dump" => check.dump(&ctx, false),
+        "dump-singles" => check.dump(&ctx, true),
         "replay" => {
             let path = args.get(3).cloned().unwrap_or_default();
             let text = std::fs::read_to_string(&path).unwrap_or_else(|e| {
